@@ -1,8 +1,270 @@
-//! C10 — stub, to be written.
+//! C10: normal-form construction (mk_dnf, mk_cnf, clause constructors) and extraction (to_dnf, to_cnf,
+//! to_optimized_dnf) preserve the function.
+//!
+//! Text forms: a clause is the raw `Vec<Option<bool>>` as a string over `0`, `1`, `-` (`~` = empty vector; the
+//! length of the string IS the length of the vector, so trailing `-` are significant for `PartialEq`); a clause
+//! list is `c1/c2/…`, the empty list is `.`. Observed clause lists are printed with `fmt_partial` over the
+//! `num_vars` variables of the context (variables beyond are appended as `;idx=val`).
 #[path = "../common.rs"]
 mod common;
+use biodivine_lib_bdd::*;
 use common::*;
 
-pub fn run(key: &str, _a: &[String], _out: &mut Out) { panic!("unknown key {}", key) }
-pub fn gen(_tier: Tier, _rng: &mut Rng64, _out: &mut Out) {}
+fn s(x: &str) -> String { x.to_string() }
+
+/// builds the vector exactly: `set_value`/`unset_value` on the last position fixes the length
+fn parse_clause(t: &str) -> BddPartialValuation {
+    let mut p = BddPartialValuation::empty();
+    if t == "~" { return p; }
+    let cs: Vec<char> = t.chars().collect();
+    let last = cs.len() - 1;
+    p.set_value(var(last), false);
+    p.unset_value(var(last));
+    for (i, c) in cs.iter().enumerate() {
+        match c { '1' => p.set_value(var(i), true), '0' => p.set_value(var(i), false), _ => {} }
+    }
+    p
+}
+fn parse_clauses(t: &str) -> Vec<BddPartialValuation> {
+    if t == "." { return vec![]; }
+    t.split('/').map(parse_clause).collect()
+}
+fn fmt_clauses(cs: &[BddPartialValuation], n: usize) -> String {
+    if cs.is_empty() { return s("."); }
+    cs.iter().map(|c| fmt_partial(c, n)).collect::<Vec<_>>().join("/")
+}
+fn fmt_res_clauses(cs: &Option<Vec<BddPartialValuation>>, n: usize) -> String {
+    match cs { Some(cs) => fmt_clauses(cs, n), None => s("panic") }
+}
+
+pub fn run(key: &str, a: &[String], out: &mut Out) {
+    match key {
+        "C10.dnf" | "C10.cnf" => {
+            // n clauses => Bdd | panic
+            let n: u16 = a[0].parse().unwrap();
+            let ctx = BddVariableSet::new_anonymous(n);
+            let cs = parse_clauses(&a[1]);
+            let res = if key == "C10.dnf" { catch(|| ctx.mk_dnf(&cs)) } else { catch(|| ctx.mk_cnf(&cs)) };
+            out.case(key, a, &[fmt_res_bdd(&res)]);
+        }
+        "C10.conj" | "C10.disj" => {
+            // n clause => Bdd | panic
+            let n: u16 = a[0].parse().unwrap();
+            let ctx = BddVariableSet::new_anonymous(n);
+            let c = parse_clause(&a[1]);
+            let res = if key == "C10.conj" { catch(|| ctx.mk_conjunctive_clause(&c)) } else { catch(|| ctx.mk_disjunctive_clause(&c)) };
+            out.case(key, a, &[fmt_res_bdd(&res)]);
+        }
+        "C10.ext" => {
+            // Bdd => to_dnf to_cnf mk_dnf(to_dnf) mk_cnf(to_cnf)
+            let b = Bdd::from_string(&a[0]);
+            let n = b.num_vars();
+            let ctx = BddVariableSet::new_anonymous(n);
+            let dnf = catch(|| b.to_dnf());
+            let cnf = catch(|| b.to_cnf());
+            let rd = match &dnf { Some(d) => catch(|| ctx.mk_dnf(d)), None => None };
+            let rc = match &cnf { Some(c) => catch(|| ctx.mk_cnf(c)), None => None };
+            out.case(key, a, &[fmt_res_clauses(&dnf, n as usize), fmt_res_clauses(&cnf, n as usize), fmt_res_bdd(&rd), fmt_res_bdd(&rc)]);
+        }
+        "C10.opt" => {
+            // Bdd => to_optimized_dnf mk_dnf(to_optimized_dnf)
+            let b = Bdd::from_string(&a[0]);
+            let n = b.num_vars();
+            let ctx = BddVariableSet::new_anonymous(n);
+            let dnf = catch(|| b.to_optimized_dnf());
+            let rd = match &dnf { Some(d) => catch(|| ctx.mk_dnf(d)), None => None };
+            out.case(key, a, &[fmt_res_clauses(&dnf, n as usize), fmt_res_bdd(&rd)]);
+        }
+        _ => panic!("unknown key {}", key),
+    }
+}
+
+/// clause number `i < 3^n` over n variables, as a string of length n
+fn clause_of_index(n: usize, mut i: usize) -> String {
+    if n == 0 { return s("~"); }
+    let mut t = String::new();
+    for _ in 0..n { t.push(['-', '0', '1'][i % 3]); i /= 3; }
+    t
+}
+fn pow3(n: usize) -> usize { (0..n).fold(1, |a, _| a * 3) }
+
+/// random clause over n variables with the given probability (out of 8) of fixing a variable
+fn random_clause(rng: &mut Rng64, n: usize, dens: u64) -> String {
+    if n == 0 { return s("~"); }
+    (0..n).map(|_| if rng.chance(dens, 8) { if rng.bool() { '1' } else { '0' } } else { '-' }).collect()
+}
+/// the same clause with another vector length (trailing `-` dropped or added): equal under `PartialEq`
+fn relength(rng: &mut Rng64, c: &str) -> String {
+    let mut t: String = if c == "~" { String::new() } else { c.to_string() };
+    if rng.bool() { while t.ends_with('-') { t.pop(); } } else { for _ in 0..rng.below(3) { t.push('-'); } }
+    if t.is_empty() { s("~") } else { t }
+}
+fn both(n: usize, list: &str, out: &mut Out) {
+    run("C10.dnf", &[n.to_string(), s(list)], out);
+    run("C10.cnf", &[n.to_string(), s(list)], out);
+}
+
+pub fn gen(tier: Tier, rng: &mut Rng64, out: &mut Out) {
+    let thorough = tier == Tier::Thorough;
+
+    // --- single-clause constructors: all 3^n clauses, n <= 4, plus other vector lengths
+    for n in 0..=4usize {
+        for i in 0..pow3(n) {
+            let c = clause_of_index(n, i);
+            for key in ["C10.conj", "C10.disj"] {
+                run(key, &[n.to_string(), c.clone()], out);
+                let c2 = relength(rng, &c);
+                if c2 != c { run(key, &[n.to_string(), c2], out); }
+            }
+        }
+    }
+    // malformed stream for the constructors: a fixed variable >= num_vars (documented panic)
+    for n in 0..=3usize {
+        for extra in 1..=2usize {
+            for i in 0..pow3(n + extra) {
+                let c = clause_of_index(n + extra, i);
+                if thorough || rng.chance(1, 3) {
+                    run("C10.conj", &[n.to_string(), c.clone()], out);
+                    run("C10.disj", &[n.to_string(), c], out);
+                }
+            }
+        }
+    }
+
+    // --- mk_dnf / mk_cnf: the empty list and all ordered lists of <= 3 clauses over n <= 3 variables
+    for n in 0..=3usize {
+        both(n, ".", out);
+        let m = pow3(n);
+        let all: Vec<String> = (0..m).map(|i| clause_of_index(n, i)).collect();
+        for a in &all { both(n, a, out); }
+        for a in &all { for b in &all { both(n, &format!("{}/{}", a, b), out); } }
+        if n < 3 || thorough {
+            for a in &all { for b in &all { for c in &all { both(n, &format!("{}/{}/{}", a, b, c), out); } } }
+        } else {
+            for _ in 0..2500 {
+                let (a, b, c) = (rng.pick(&all).clone(), rng.pick(&all).clone(), rng.pick(&all).clone());
+                both(n, &format!("{}/{}/{}", a, b, c), out);
+            }
+        }
+    }
+    // duplicates whose vectors have different lengths (equal under PartialEq), n <= 3
+    for n in 1..=3usize {
+        for i in 0..pow3(n) {
+            let c = clause_of_index(n, i);
+            let d = relength(rng, &c);
+            let e = relength(rng, &c);
+            both(n, &format!("{}/{}", c, d), out);
+            both(n, &format!("{}/{}/{}", d, c, e), out);
+        }
+    }
+    // --- random lists of up to 12 clauses over <= 8 variables: duplicates, complements, overlaps
+    let rounds = if thorough { 40000 } else { 2500 };
+    for _ in 0..rounds {
+        let n = 1 + rng.below(8) as usize;
+        let len = rng.below(13) as usize;
+        let dens = 1 + rng.below(8);
+        let mut cs: Vec<String> = Vec::new();
+        for _ in 0..len {
+            let choice = rng.below(8);
+            if !cs.is_empty() && choice == 0 {
+                let c = rng.pick(&cs).clone();
+                cs.push(relength(rng, &c));                      // duplicate (maybe another vector length)
+            } else if !cs.is_empty() && choice == 1 {
+                // complementary clause: flip one fixed literal of an earlier clause
+                let mut c: Vec<char> = rng.pick(&cs).chars().collect();
+                let fixed: Vec<usize> = (0..c.len()).filter(|i| c[*i] == '0' || c[*i] == '1').collect();
+                if !fixed.is_empty() { let i = *rng.pick(&fixed); c[i] = if c[i] == '0' { '1' } else { '0' }; }
+                cs.push(c.into_iter().collect());
+            } else if !cs.is_empty() && choice == 2 {
+                // overlapping clause: drop or add a literal
+                let mut c: Vec<char> = rng.pick(&cs).chars().collect();
+                if c[0] != '~' { let i = rng.below(c.len() as u64) as usize; c[i] = *rng.pick(&['-', '0', '1']); }
+                cs.push(c.into_iter().collect());
+            } else {
+                cs.push(random_clause(rng, n, dens));
+            }
+        }
+        let list = if cs.is_empty() { s(".") } else { cs.join("/") };
+        both(n, &list, out);
+    }
+    // the two regression shapes of the repository tests (`bad_mk_dnf`, `bad_mk_dnf_2`), scaled down
+    {
+        let n = 12usize;
+        let cs: Vec<String> = (0..6).map(|i| (0..n).map(|k| if k == 2 * i || k == 2 * i + 1 { '1' } else { '-' }).collect()).collect();
+        both(n, &cs.join("/"), out);
+        both(3, "10/10", out);
+    }
+    // malformed stream: clauses that mention variables >= num_vars.
+    // mk_cnf asserts the range in mk_disjunctive_clause. mk_dnf has no such assertion: it goes through
+    // mk_partial_valuation and returns a diagram with variables >= num_vars, and `or` on such operands may not
+    // terminate (observed: `C10.dnf 2 -0-0/1-` allocates without bound), so mk_dnf is only run on lists that
+    // never reach `or`: all clauses agree below num_vars (they end in the duplicate check of line 20).
+    let rounds = if thorough { 4000 } else { 400 };
+    for _ in 0..rounds {
+        let n = rng.below(4) as usize;
+        let len = 1 + rng.below(4) as usize;
+        let dens = 2 + rng.below(6);
+        let cs: Vec<String> = (0..len).map(|_| { let extra = rng.below(3) as usize; random_clause(rng, n + extra, dens) }).collect();
+        run("C10.cnf", &[n.to_string(), cs.join("/")], out);
+        let base: String = if n == 0 { String::new() } else { random_clause(rng, n, dens) };
+        let ext: Vec<String> = (0..len).map(|_| {
+            let extra = rng.below(3) as usize;
+            let tail: String = (0..extra).map(|_| *rng.pick(&['-', '-', '0', '1'])).collect();
+            let c = format!("{}{}", base, tail);
+            if c.is_empty() { s("~") } else { c }
+        }).collect();
+        both(n, &ext.join("/"), out);
+    }
+
+    // --- extraction and rebuild: all functions over <= 3 variables, over 4 (thorough: all; quick: sample)
+    for n in 0..=3usize {
+        for t in 0..(1u64 << (1u64 << n)) {
+            let b = fmt_bdd(&bdd_of_tt(n, &tt_from_index(n, t)));
+            run("C10.ext", &[b.clone()], out);
+            run("C10.opt", &[b], out);
+        }
+    }
+    if thorough {
+        for t in 0..65536u64 {
+            let b = fmt_bdd(&bdd_of_tt(4, &tt_from_index(4, t)));
+            run("C10.ext", &[b.clone()], out);
+            run("C10.opt", &[b], out);
+        }
+    } else {
+        for _ in 0..1500 {
+            let b = fmt_bdd(&bdd_of_tt(4, &tt_from_index(4, rng.below(65536))));
+            run("C10.ext", &[b.clone()], out);
+            if rng.chance(1, 2) { run("C10.opt", &[b], out); }
+        }
+    }
+    // random functions over 5..7 variables
+    let rounds = if thorough { 20000 } else { 1200 };
+    for _ in 0..rounds {
+        let n = 5 + rng.below(3) as usize;
+        let b = random_bdd(rng, n);
+        let bs = fmt_bdd(&b);
+        run("C10.ext", &[bs.clone()], out);
+        if rng.chance(1, 3) { run("C10.opt", &[bs], out); }
+        // valid but non-canonical operand: the extractions are still semantic, the rebuild is canonical
+        if rng.chance(1, 6) { run("C10.ext", &[fmt_bdd(&noncanon_variant(rng, &b))], out); }
+    }
+    // few-node diagrams over many variables with level gaps (clauses of conjunctions/disjunctions)
+    for _ in 0..(if thorough { 2000 } else { 200 }) {
+        let n = 8 + rng.below(5) as usize;
+        let ctx = BddVariableSet::new_anonymous(n as u16);
+        let c1 = parse_clause(&random_clause(rng, n, 2));
+        let c2 = parse_clause(&random_clause(rng, n, 2));
+        // operands built by the library here (sizes beyond the oracle builder's truth tables are not needed: n <= 12)
+        let tt: Vec<bool> = (0..(1usize << n)).map(|i| {
+            let v = val_of_index(n, i);
+            let sat = |c: &BddPartialValuation| c.to_values().iter().all(|(x, b)| v[x.to_index()] == *b);
+            sat(&c1) != sat(&c2)
+        }).collect();
+        let _ = ctx;
+        let b = fmt_bdd(&bdd_of_tt(n, &tt));
+        run("C10.ext", &[b.clone()], out);
+        run("C10.opt", &[b], out);
+    }
+}
+
 fn main() { harness_main(gen, run) }
